@@ -73,8 +73,9 @@ type objRT struct {
 
 	started     bool
 	startGen    int
-	stopFailed  bool          // a stop call returned an error: the object is not restarted (known finding C09 WaitGroup reuse)
-	stopIdle    chan struct{} // closed when the last in-progress stop call returns
+	stopFailed  bool               // a stop call returned an error: the object is not restarted (known finding C09 WaitGroup reuse)
+	stopIdle    chan struct{}      // closed when the last in-progress stop call returns
+	startCancel context.CancelFunc // cancels the context passed to the last Start
 	inStop      int
 	stopped     bool
 	delDepth    int
@@ -375,11 +376,15 @@ func (s *Sim) doAction(a *Action) {
 			return
 		}
 		r := s.apiBegin(o, "Start", a)
-		err := o.el.Start(context.Background())
+		sctx, scancel := context.WithCancel(context.Background())
+		err := o.el.Start(sctx)
 		s.mu.Lock()
 		if err == nil {
 			o.started, o.stopped = true, false
 			o.startGen++
+			o.startCancel = scancel
+		} else {
+			scancel()
 		}
 		s.mu.Unlock()
 		s.mu.Lock()
@@ -447,7 +452,7 @@ func (s *Sim) doAction(a *Action) {
 		if err != nil && err != leader.ErrAlreadyStopped {
 			o.stopFailed = true
 		}
-		if o.opsInFlight > 0 || (a.Kind == ActStop && s.now()-r.CallT >= 5*time.Second) {
+		if a.Kind == ActStop && s.now()-r.CallT >= 5*time.Second {
 			// the stop call gave up waiting for the election's goroutines (its 5s / caller's time-out):
 			// restarting this object would reuse its WaitGroup while the previous Wait is still pending
 			// (known finding C09/C20); real callers create a new election instead, and so does the harness
@@ -524,6 +529,19 @@ func (s *Sim) doAction(a *Action) {
 		ok := o.el.ValidateTokenOrDemote(ctx)
 		cancel()
 		s.apiEnd(o, r, ok, nil)
+	case ActCancelCtx:
+		o := s.current(a.Inst)
+		if o == nil {
+			return
+		}
+		s.mu.Lock()
+		c := o.startCancel
+		s.mu.Unlock()
+		if c != nil {
+			r := s.apiBegin(o, "CancelStartContext", a)
+			c()
+			s.apiEnd(o, r, true, nil)
+		}
 	case ActSetHandler:
 		o := s.current(a.Inst)
 		if o == nil {
